@@ -26,47 +26,81 @@ Record rstate := {
 Definition raw_init (file : bytes) : rstate :=
   {| r_file := file; r_rest := file; r_ammo := 0; r_pass := 0 |}.
 
-(* the for-loop of Scan; every iteration either consumes a chunk or wraps around *)
-Fixpoint raw_loop (fuel : nat) (c : dcfg) (s : rstate) : sres rentry * rstate * option (N * N) :=
-  match fuel with
-  | O => (SOutOfFuel, s, None)
-  | S f =>
-      let '(data, rest1, ok) := read_string (r_rest s) in
-      if negb ok then
-        (* io.EOF (data read so far is dropped) *)
-        let p := N.succ (r_pass s) in
-        let s' := {| r_file := r_file s; r_rest := []; r_ammo := r_ammo s; r_pass := p |} in
-        if passes_hit c p then (SPassLimit, s', None)
-        else if N.eqb (r_ammo s) 0 then (SNoAmmo, s', None)
-        else raw_loop f c {| r_file := r_file s; r_rest := r_file s; r_ammo := r_ammo s; r_pass := p |}
-      else
-        let d := trim data in
-        match d with
-        | [] => raw_loop f c {| r_file := r_file s; r_rest := rest1; r_ammo := r_ammo s; r_pass := r_pass s |}
-        | _ =>
-            let s1 := {| r_file := r_file s; r_rest := rest1; r_ammo := N.succ (r_ammo s); r_pass := r_pass s |} in
-            match raw_decode_header d with
-            | None => (SErr EWrongSize, s1, None)
-            | Some (size, tag) =>
-                if Z.eqb size 0 then (SDeliver {| rb_buf := []; rb_tag := [] |}, s1, None)
-                else
-                  match alloc_read size rest1 with
-                  | APanic => (SPanic, s1, None)
-                  | AErr e => (SErr e, s1, None)
-                  | AShort n => (SErr EShortRead, s1, Some (n, nlen rest1))
-                  | AOk buf r n =>
-                      (SDeliver {| rb_buf := buf; rb_tag := tag |},
-                       {| r_file := r_file s; r_rest := r; r_ammo := N.succ (r_ammo s); r_pass := r_pass s |},
-                       Some (n, nlen rest1))
-                  end
-            end
+(* One iteration of the for-loop of Scan that does not hit io.EOF: a blank chunk is skipped,
+   anything else ends the call. *)
+Inductive rblock :=
+| RSkip (rest : bytes)
+| RFound (e : rentry) (rest : bytes) (alloc : option (N * N))
+| REof
+| RErr (e : err) (alloc : option (N * N))
+| RPanic.
+
+Definition raw_block (rest : bytes) : rblock :=
+  let '(data, rest1, ok) := read_string rest in
+  if negb ok then REof        (* io.EOF: data read so far is dropped *)
+  else
+    let d := trim data in
+    match d with
+    | [] => RSkip rest1
+    | _ =>
+        match raw_decode_header d with
+        | None => RErr EWrongSize None
+        | Some (size, tag) =>
+            if Z.eqb size 0 then RFound {| rb_buf := []; rb_tag := [] |} rest1 None
+            else
+              match alloc_read size rest1 with
+              | APanic => RPanic
+              | AErr e => RErr e None
+              | AShort n => RErr EShortRead (Some (n, nlen rest1))
+              | AOk buf r n => RFound {| rb_buf := buf; rb_tag := tag |} r (Some (n, nlen rest1))
+              end
         end
+    end.
+
+Inductive rinner :=
+| RIFound (e : rentry) (rest : bytes) (alloc : option (N * N))
+| RIEof
+| RIErr (e : err) (alloc : option (N * N))
+| RIPanic
+| RIOutOfFuel.
+
+(* the iterations between two io.EOFs (every one consumes at least one byte) *)
+Fixpoint raw_inner (fuel : nat) (rest : bytes) : rinner :=
+  match fuel with
+  | O => RIOutOfFuel
+  | S f =>
+      match raw_block rest with
+      | RSkip r => raw_inner f r
+      | RFound e r a => RIFound e r a
+      | REof => RIEof
+      | RErr e a => RIErr e a
+      | RPanic => RIPanic
+      end
   end.
 
-Definition raw_fuel (s : rstate) : nat := (length (r_rest s) + length (r_file s) + 4)%nat.
+(* the for-loop of Scan, cut at the io.EOF branch: [i] counts the wrap-arounds still allowed
+   (one is always enough: C13_terminates_raw) *)
+Fixpoint raw_outer (i : nat) (c : dcfg) (s : rstate) : sres rentry * rstate * option (N * N) :=
+  match i with
+  | O => (SOutOfFuel, s, None)
+  | S i' =>
+      let bump r := {| r_file := r_file s; r_rest := r; r_ammo := N.succ (r_ammo s); r_pass := r_pass s |} in
+      match raw_inner (S (length (r_rest s))) (r_rest s) with
+      | RIFound e r a => (SDeliver e, bump r, a)
+      | RIErr e a => (SErr e, bump [], a)          (* ammoNum++ precedes the validation *)
+      | RIPanic => (SPanic, bump [], None)
+      | RIOutOfFuel => (SOutOfFuel, s, None)
+      | RIEof =>
+          let p := N.succ (r_pass s) in
+          let s' := {| r_file := r_file s; r_rest := []; r_ammo := r_ammo s; r_pass := p |} in
+          if passes_hit c p then (SPassLimit, s', None)
+          else if N.eqb (r_ammo s) 0 then (SNoAmmo, s', None)
+          else raw_outer i' c {| r_file := r_file s; r_rest := r_file s; r_ammo := r_ammo s; r_pass := p |}
+      end
+  end.
 
 Definition raw_scan (c : dcfg) (s : rstate) : sres rentry * rstate * option (N * N) :=
-  if limit_hit c (r_ammo s) then (SAmmoLimit, s, None) else raw_loop (raw_fuel s) c s.
+  if limit_hit c (r_ammo s) then (SAmmoLimit, s, None) else raw_outer 2 c s.
 
 Fixpoint raw_run (k : nat) (c : dcfg) (s : rstate) : list (sres rentry * option (N * N)) :=
   match k with
